@@ -39,14 +39,18 @@ namespace {
 extern "C" void h_intern_hist(void) {
    impl::Lexicon* lx = new impl::Lexicon;
    SymWord w[C03_K]; const ipr::String* s[C03_K];
+   // a scanner presents every word through one reused token buffer (symbolic choice): the bytes behind an earlier request are
+   // overwritten by the next word, so nothing may be remembered about the caller's storage
+   static char8_t token[MAXL]; const bool through_token = vp_flag();
+   auto present = [&](const SymWord& x) { if (!through_token) return x.view(); for (unsigned k = 0; k < MAXL; ++k) token[k] = x.buf[k]; return util::word_view(token, x.len); };
    for (int i = 0; i < C03_K; ++i) {
       w[i].make();
-      s[i] = &lx->get_string(w[i].view());
+      s[i] = &lx->get_string(present(w[i]));
       for (int j = 0; j <= i; ++j) vp_assert(content_is(*s[j], w[j]), 1);                   // content preserved, also for earlier strings
       for (int j = 0; j < i; ++j) vp_assert((s[i] == s[j]) == w[i].same(w[j]), 2);          // same node <=> same bytes
       if (w[i].len == 0) vp_assert(s[i] == &ipr::String::empty_string(), 3);
    }
-   for (int i = 0; i < C03_K; ++i) vp_assert(&lx->get_string(w[i].view()) == s[i], 4);       // asking again returns the same node
+   for (int i = 0; i < C03_K; ++i) vp_assert(&lx->get_string(present(w[i])) == s[i], 4);     // asking again returns the same node
    vp_done();
 }
 // roll-over: the pool cursor is placed j granules before the end of the 1 MiB pool, earlier string live
